@@ -10,6 +10,7 @@ package tlsutils
 //@   ensures len(result) == 9 && fresh(arr(result))
 
 //@ func TLSClientConfiguration(certPath, keyPath, caCertPaths)
+//@   flag logged
 //@   let r0 = old(calls(os.ReadFile))
 //@   let a0 = old(calls(CertPool.AppendCertsFromPEM))
 //@   let p0 = old(calls(x509.NewCertPool))
